@@ -671,6 +671,7 @@ def _run_once(sc: dict, with_block: bool, post_ops: List[str], wrappers: bool, p
     """pre ops, (block), post ops; every op is followed by one simulation timestep."""
     from primaite.simulator.network.hardware.base import Link
     from primaite.simulator.network.hardware.nodes.network.router import AccessControlList, Router
+    from primaite.simulator.network.hardware.nodes.network.firewall import Firewall
     from primaite.simulator.network.hardware.nodes.network.switch import Switch
     from primaite.simulator.network.protocols.arp import ARPPacket
     from primaite.simulator.system.core.session_manager import SessionManager
@@ -750,9 +751,64 @@ def _run_once(sc: dict, with_block: bool, post_ops: List[str], wrappers: bool, p
 
     created: Dict[int, Any] = {}
 
+    # rtrStd (Model/FilterFwd.lean): what a router / firewall puts on a wire while it handles a frame.  The real proc() wrapper
+    # already exists for Router.process_frame; here the whole receive_frame is bracketed (a stack per device: re-entrance).
+    rt_in: Dict[str, list] = {}
+    real_rrx, real_frx = Router.receive_frame, Firewall.receive_frame
+
+    def _pktsnap(frame):
+        return (str(frame.ip.src_ip_address), str(frame.ip.dst_ip_address), str(frame.ip.protocol),
+                None if frame.tcp is None else (frame.tcp.src_port, frame.tcp.dst_port),
+                None if frame.udp is None else (frame.udp.src_port, frame.udp.dst_port), id(frame.payload))
+
+    def _bracket(real):
+        def rx(self, frame, from_network_interface):
+            st = rt_in.setdefault(self.config.hostname, [])
+            st.append((id(frame), _pktsnap(frame)))
+            try:
+                return real(self, frame=frame, from_network_interface=from_network_interface)
+            finally:
+                st.pop()
+        return rx
+
+    def check_router(node, sender_nic, frame):
+        h = node.config.hostname
+        st = rt_in.get(h)
+        if not st:
+            model_ok["rtr-unattributed"] = model_ok.get("rtr-unattributed", 0) + 1  # not caused by a frame (none observed so far)
+            return
+        hid, hsnap = st[-1]
+        hops = {str(r.next_hop_ip_address) for r in list(node.route_table.routes) +
+                ([node.route_table.default_route] if node.route_table.default_route else [])}
+        what = None
+        if id(frame) == hid:
+            # a forwarded copy: the packet and the payload are those that were received
+            if _pktsnap(frame) != hsnap:
+                what = "forwarded a frame whose packet differs from the one it received"
+            kind = "rtr-forwarded"
+        elif isinstance(frame.payload, ARPPacket) and frame.payload.request:
+            tgt = str(frame.payload.target_ip_address)
+            if not (frame.payload.sender_ip_address == sender_nic.ip_address and (tgt in (hsnap[0], hsnap[1]) or tgt in hops)):
+                what = f"ARP request for {tgt}: neither the handled frame's source/destination ({hsnap[0]}/{hsnap[1]}) nor a next hop"
+            kind = "rtr-arp-request"
+        elif isinstance(frame.payload, ARPPacket):
+            kind = "rtr-arp-reply"
+        else:
+            # own services answer to the source of the frame being handled, with the outbound interface's own address
+            if not (frame.ip.src_ip_address == sender_nic.ip_address and str(frame.ip.dst_ip_address) == hsnap[0]):
+                what = (f"created a frame {frame.ip.src_ip_address}->{frame.ip.dst_ip_address} while handling a frame from {hsnap[0]}: "
+                        f"not a reply to the source")
+            kind = "rtr-reply-to-source"
+        if what:
+            model_bad.append(f"{h}: router/firewall {what}")
+        else:
+            model_ok[kind] = model_ok.get(kind, 0) + 1
+
     def check_models(sender_nic, frame):
         node = sender_nic._connected_node
         h = node.config.hostname
+        if isinstance(node, Router):
+            check_router(node, sender_nic, frame)
         if isinstance(node, Switch):
             # switchStd: a switch sends THE frame it received, unchanged
             st = sw_in.get(h)
@@ -838,6 +894,8 @@ def _run_once(sc: dict, with_block: bool, post_ops: List[str], wrappers: bool, p
             es.enter_context(mock.patch.object(SessionManager, "receive_frame", srx))
             es.enter_context(mock.patch.object(Router, "process_frame", proc))
             es.enter_context(mock.patch.object(Switch, "receive_frame", swrx))
+            es.enter_context(mock.patch.object(Router, "receive_frame", _bracket(real_rrx)))
+            es.enter_context(mock.patch.object(Firewall, "receive_frame", _bracket(real_frx)))
         tick()
         for op in sc["pre_ops"]:
             guarded(op)
@@ -895,7 +953,8 @@ def run_scenario(sc: dict, control: bool = True) -> dict:
         violations.append({"kind": "denied-frame-not-inert", "what": v})
     res = {"violations": violations, "log": attack["log"], "errors": attack["errors"], "nontrivial": None, "protected": prot,
            "topo": attack["topo"], "closure": attack["closure"], "topo_ctl": [],
-           "model_ok": {k: attack["model_ok"][k] + idle["model_ok"][k] for k in attack["model_ok"]},
+           "model_ok": {k: attack["model_ok"].get(k, 0) + idle["model_ok"].get(k, 0)
+                        for k in set(attack["model_ok"]) | set(idle["model_ok"])},
            "model_bad": attack["model_bad"] + idle["model_bad"]}
     if control:
         sc2 = dict(sc, missing_links=[], _want_topo=True)
